@@ -89,6 +89,12 @@ def doInit (W S : Nat) (kind : String) (seg : List String) : Option (Option St) 
       match Decoder.fromCompressed c l with
       | .ok d => some (some { mode := .dec d })
       | .error _ => some none
+  | "rangedec", ["borrowed", ws] => do
+      -- `RangeDecoder::for_compressed(&vec)`
+      let l â† parseList ws
+      match Decoder.fromCompressed c l with
+      | .ok d => some (some { mode := .dec d })
+      | .error _ => some none
   | "rangedec", ["rawdec", ws, pos, lo, r, pt] => do
       let l â† parseList ws
       let pos â† parseHex pos
@@ -126,6 +132,29 @@ def encOp (W S : Nat) (st : St) (e : Encoder) (seg : List String) : Option (St Ã
       | .error .impossible => some (st, "impossible", false)
       | .error (.fault f) => some (st, faultStr f, true)
   | ["encnone", _, _] => some (st, "impossible", false)
+  | ["encs", b, p, form, cdf, syms, errAt] => do
+      -- 0 = encode_symbols, 2 = try_encode_symbols (`Err` item at `errAt`), 4 = encode_iid_symbols
+      let b â† parseHex b
+      let p â† parseHex p
+      let form â† parseHex form
+      let t â† parseList cdf
+      let syms â† parseList syms
+      let errAt â† if errAt == "-" then some none else (parseHex errAt).map some
+      if form != 0 && form != 2 && form != 4 then none else
+      if !strictCdfB p t then some (st, "bad-table", true) else
+      let items : List (Option (Nat Ã— Model Nat)) := (syms.zipIdx).map (fun (sy, i) =>
+        if form == 2 && errAt == some i then none else some (sy, tableModel t))
+      match encodeSymbols (cfgOf W S b p) e items with
+      | (e', .ok ()) =>
+        let enc := syms.filterMap (fun sy => (tableModel t).enc sy)
+        some ({ st with mode := .enc e',
+                        hist := st.hist.map (fun (pre, l) => (pre, (enc.map (fun (cum, pr) => (p, cum, pr))).reverse ++ l)) },
+              "ok", false)
+      | (e', .error .model) => some ({ st with mode := .enc e', hist := none }, "modelerr", false)
+      | (e', .error (.coding .impossible)) =>
+        some ({ st with mode := .enc e', hist := none }, "impossible", false)
+      | (_, .error (.coding (.fault f))) => some (st, faultStr f, true)
+  | ["full"] => some (st, showBool (maybeFull e), false)
   | ["export"] => some (mOut st (intoCompressed c e) (fun ws => (st, showList ws)))
   | ["getc"] =>
       some (mOut st (getCompressed c e) (fun (view, e') =>
@@ -151,6 +180,9 @@ def encOp (W S : Nat) (st : St) (e : Encoder) (seg : List String) : Option (St Ã
   | ["clone"] => some (st, "ok", false)
   | ["clear"] => some ({ st with mode := .enc (clear c e), hist := none }, "ok", false)
   | ["intodec"] =>
+      some (mOut st (intoDecoder c e) (fun d => ({ st with mode := .dec d }, "ok")))
+  | ["intodec2"] =>
+      -- `IntoDecoder::<PRECISION>::into_decoder` (trait form; `From<RangeEncoder>`)
       some (mOut st (intoDecoder c e) (fun d => ({ st with mode := .dec d }, "ok")))
   | ["expect", ws] => do
       let l â† parseList ws
@@ -189,7 +221,28 @@ def decOp (W S : Nat) (st : St) (d : Decoder) (seg : List String) : Option (St Ã
       let i â† parseHex i
       let (pos, lo, r) â† st.snaps[i]?
       some (seekOut st d c pos lo r)
+  | ["decs", b, p, form, cdf, n, errAt] => do
+      -- 0 = decode_symbols, 1 = try_decode_symbols (`Err` item at `errAt`), 2 = decode_iid_symbols
+      let b â† parseHex b
+      let p â† parseHex p
+      let form â† parseHex form
+      let t â† parseList cdf
+      let n â† parseHex n
+      let errAt â† if errAt == "-" then some none else (parseHex errAt).map some
+      if form > 2 then none else
+      if !strictCdfB p t then some (st, "bad-table", true) else
+      let items : List (Option (Model Nat)) := (List.range n).map (fun i =>
+        if form == 1 && errAt == some i then none else some (tableModel t))
+      match decodeSymbols (cfgOf W S b p) d items [] with
+      | (d', ss, .ok ()) => some ({ st with mode := .dec d' }, showList ss, false)
+      | (d', ss, .error .model) => some ({ st with mode := .dec d' }, showList ss ++ " modelerr", false)
+      | (d', ss, .error (.coding .invalidData)) =>
+        some ({ st with mode := .dec d' }, showList ss ++ " invalid_data", false)
+      | (_, _, .error (.coding (.fault f))) => some (st, faultStr f, true)
   | ["exhausted"] => some (mOut st (d.maybeExhausted c) (fun b => (st, showBool b)))
+  | ["exhausted2"] =>
+      -- `Code::decoder_maybe_exhausted::<PRECISION>` and `Decode::maybe_exhausted`
+      some (mOut st (d.maybeExhausted c) (fun b => (st, showBool b)))
   | ["raw"] => some (st, showDec d, false)
   | ["clone"] => some (st, "ok", false)
   | _ => none
